@@ -305,6 +305,9 @@ def NoNul (s : Str) : Prop := ∀ c ∈ s, c ≠ nulChar
 /-- the text after a command: end of script, or a newline and the next commands -/
 def Tail (tl : Str) : Prop := tl = [] ∨ ∃ r, tl = '\n' :: r
 
+/-- a comment or empty line -/
+def lineOk (t : Str) : Bool := (t.isEmpty || headIs (· = '#') t) && !t.contains '\n'
+
 /-- commands of the fragment `evalCmds` gives a meaning to -/
 def Cmd.WF : Cmd → Prop
   | .line t => (t = [] ∨ ∃ r, t = '#' :: r) ∧ '\n' ∉ t
@@ -363,13 +366,16 @@ def arrayCmds (abs : Str → Str) (s : Spec) : List Cmd :=
    .declareA Consts.C13.arrayDep (sortElems (absPairs abs s.depPaths)),
    .declareA Consts.C13.arrayTool (sortElems (absPairs abs s.toolPaths))]
 
-/-- `BashLanguage.__formatProlog(spec, keepEnv)` as a command list -/
-def prologCmds (abs : Str → Str) (s : Spec) (keepEnv : Bool) : List Cmd :=
+/-- everything of the prolog before the `export` block -/
+def prologHead (abs : Str → Str) (s : Spec) (keepEnv : Bool) : List Cmd :=
   Consts.C13.prologHeader.map .line ++
   (if keepEnv then (splitLines [] Consts.C13.prologKeepEnv).map fun l => if l.isEmpty then .line l else .raw l else []) ++
   [.line Consts.C13.prologArraysComment] ++ arrayCmds abs s ++
-  [.line [], .line Consts.C13.prologEnvComment] ++
-  (sortExports (exportEntries abs s)).map .export
+  [.line [], .line Consts.C13.prologEnvComment]
+
+/-- `BashLanguage.__formatProlog(spec, keepEnv)` as a command list -/
+def prologCmds (abs : Str → Str) (s : Spec) (keepEnv : Bool) : List Cmd :=
+  prologHead abs s keepEnv ++ (sortExports (exportEntries abs s)).map .export
 
 def formatProlog (abs : Str → Str) (s : Spec) (keepEnv : Bool) : Str := renderCmds (prologCmds abs s keepEnv)
 
@@ -422,5 +428,224 @@ environment given by the Invoker (`specEnv=False`), then the prolog evaluated by
 def scriptEnv (abs : Str → Str) (s : Spec) (preserve : Bool) (wl : List Str) (host extra : Env) :
     Except ShErr Sh :=
   evalScript ⟨processEnv preserve wl host none extra, []⟩ (formatProlog abs s false)
+
+/-! ## (d) `StepSpec.fromStep`, the sandbox helper's argv, its option parser and the mount contract -/
+
+def strOf (s : String) : Str := s.toList
+
+/-- `os.path.join(a, b)` for POSIX paths -/
+def pathJoin (a b : Str) : Str :=
+  if headIs (· = '/') b then b
+  else if a.isEmpty || a.getLast? = some '/' then a ++ b
+  else a ++ '/' :: b
+
+/-- `posixpath.normpath` on the components of a path: `new_comps` loop -/
+def normComps (absolute : Bool) : List Str → List Str → List Str
+  | acc, [] => acc.reverse
+  | acc, c :: r =>
+    if c.isEmpty || c = ['.'] then normComps absolute acc r
+    else if c ≠ ['.', '.'] then normComps absolute (c :: acc) r
+    else match acc with
+      | [] => if absolute then normComps absolute [] r else normComps absolute [c] r
+      | a :: acc' => if a = ['.', '.'] then normComps absolute (c :: acc) r else normComps absolute acc' r
+
+def splitOn (sep : Char) : Str → Str → List Str
+  | cur, [] => [cur.reverse]
+  | cur, c :: r => if c = sep then cur.reverse :: splitOn sep [] r else splitOn sep (c :: cur) r
+
+/-- `posixpath.normpath` -/
+def normpath (p : Str) : Str :=
+  if p.isEmpty then ['.']
+  else
+    let slashes : Nat :=
+      if headIs (· = '/') p then
+        (if headIs (· = '/') (p.drop 1) && !headIs (· = '/') (p.drop 2) then 2 else 1)
+      else 0
+    let body := joinWith ['/'] (normComps (slashes != 0) [] (splitOn '/' [] p))
+    let res := List.replicate slashes '/' ++ body
+    if res.isEmpty then ['.'] else res
+
+/-- `posixpath.abspath` with the current directory `cwd` (absolute) -/
+def posixAbs (cwd : Str) (p : Str) : Str := normpath (pathJoin cwd p)
+
+structure DepStep where
+  name : Str              -- package name
+  valid : Bool
+  isCheckout : Bool
+  storage : Str           -- getStoragePath()
+  exec : Str              -- getExecPath(referrer) of a valid step
+
+/-- `StepIR.getExecPath`: invalid steps get the placeholder -/
+def DepStep.execPath (d : DepStep) : Str := if d.valid then d.exec else Consts.C13.invalidExecPrefix ++ d.name
+
+structure Tool where
+  name : Str
+  step : DepStep
+  path : Str
+  libs : List Str
+
+/-- what `StepSpec.fromStep` reads from a step.  `chain` is `step.getArguments()[0]`, its first argument, …
+(empty when the step has no arguments) -/
+structure StepDesc where
+  env : Env
+  valid : Bool
+  isCheckout : Bool
+  args : List DepStep
+  tools : List Tool
+  sandbox : Option DepStep
+  chain : List DepStep
+
+def sortStrs (xs : List Str) : List Str := xs.mergeSort strLe
+def sortPairs (xs : List (Str × Str)) : List (Str × Str) := xs.mergeSort pairLe
+def sortTools (ts : List Tool) : List Tool := ts.mergeSort fun a b => strLe a.name b.name
+
+def Tool.execPath (t : Tool) : Str := pathJoin t.step.execPath t.path
+
+/-- `step.getAllDepSteps()` -/
+def StepDesc.allDeps (d : StepDesc) : List DepStep :=
+  d.args ++ (sortTools d.tools).map Tool.step ++ d.sandbox.toList
+
+/-- the `while extra.isValid() and not extra.isCheckoutStep() and len(extra.getArguments()) > 0` loop -/
+def extraMounts : Bool → Bool → List DepStep → List (Str × Str)
+  | _, _, [] => []
+  | valid, isCk, n :: rest =>
+    if valid && !isCk then (if n.valid then [(n.storage, n.execPath)] else []) ++ extraMounts n.valid n.isCheckout rest
+    else []
+
+def StepDesc.depMounts (d : StepDesc) : List (Str × Str) :=
+  (d.allDeps.filter DepStep.valid).map (fun a => (a.storage, a.execPath)) ++ extraMounts d.valid d.isCheckout d.chain
+
+/-- `StepSpec.fromStep`: the fields that reach the script -/
+def specOfStep (d : StepDesc) (cwd : Str) : Spec :=
+  { env := d.env
+    paths := sortStrs (d.tools.map Tool.execPath)
+    libraryPaths := (sortTools d.tools).flatMap fun t => t.libs.map (pathJoin t.step.execPath)
+    cwd := cwd
+    args := d.args.map DepStep.execPath
+    allPaths := sortPairs (d.allDeps.map fun a => (a.name, a.execPath))
+    depPaths := sortPairs ((d.args.filter DepStep.valid).map fun a => (a.name, a.execPath))
+    toolPaths := sortPairs (d.tools.map fun t => (t.name, t.execPath)) }
+
+structure Mount where
+  src : Str
+  tgt : Str
+  rw : Bool
+  deriving DecidableEq, Repr
+
+/-- option groups of a helper command line -/
+inductive HArg
+  | flag (c : Char)                    -- -i -n -r
+  | opt (c : Char) (v : Str)           -- -S -H -d -W
+  | mount (m : Mount)                  -- -M src -m|-w tgt
+  | mountSame (src : Str)              -- -M src   (no target: same path, read-only)
+
+def dash (c : Char) : Str := ['-', c]
+
+def HArg.render : HArg → List Str
+  | .flag c => [dash c]
+  | .opt c v => [dash c, v]
+  | .mount m => [dash 'M', m.src, dash (if m.rw then 'w' else 'm'), m.tgt]
+  | .mountSame s => [dash 'M', s]
+
+def HArg.mounts : HArg → List Mount
+  | .mount m => [m]
+  | .mountSame s => [⟨s, s, false⟩]
+  | _ => []
+
+def renderHArgs (gs : List HArg) : List Str := gs.flatMap HArg.render
+
+structure HostMount where
+  host : Str              -- after string substitution
+  sandbox : Str           -- after string substitution
+  options : List Str
+
+def tmpStr : Str := ['t', 'm', 'p']
+
+/-- `Invoker.__getSlimSandboxCmds` (without the helper path) -/
+def slimGroups (tmpDir cwd : Str) (rootEntries : List Str) : List HArg :=
+  [.opt 'S' (pathJoin tmpDir (strOf "sandbox")), .flag 'i', .opt 'd' ('/' :: tmpStr)] ++
+  (rootEntries.filter (· ≠ tmpStr)).map (fun f => .mount ⟨'/' :: f, '/' :: f, false⟩) ++
+  [.mount ⟨pathJoin tmpDir (strOf "whiteout"), cwd, true⟩]
+
+def hostMountGroups (skipOpt : Str) (existing : Str → Bool) (m : HostMount) : List HArg :=
+  if m.options.contains skipOpt then []
+  else if m.options.contains (strOf "nofail") && !existing m.host then []
+  else if m.options.contains (strOf "rw") then [.mount ⟨m.host, m.sandbox, true⟩]
+  else if m.host ≠ m.sandbox then [.mount ⟨m.host, m.sandbox, false⟩]
+  else [.mountSame m.host]
+
+/-- `Invoker.__getFatSandboxCmds` (without the helper path) -/
+def fatGroups (tmpDir rootFs : Str) (rootEntries : List Str) (isJenkins : Bool) (existing : Str → Bool)
+    (hostMounts : List HostMount) (user : Str) : List HArg :=
+  [.opt 'S' tmpDir, .opt 'H' (strOf "bob"), .opt 'd' ('/' :: tmpStr)] ++
+  rootEntries.map (fun f => .mount ⟨pathJoin rootFs f, '/' :: f, false⟩) ++
+  hostMounts.flatMap (hostMountGroups (strOf (if isJenkins then "nojenkins" else "nolocal")) existing) ++
+  (if user = strOf "root" then [.flag 'r'] else if user = strOf "$USER" then [.flag 'i'] else [])
+
+/-- the part `Invoker.executeStep` appends: script, network, env file, own workspace, dependencies -/
+def stepGroups (abs : Str → Str) (realScript execScript : Str) (netAccess : Bool) (envFile : Option Str)
+    (wsStorage wsExec : Str) (depMounts : List (Str × Str)) : List HArg :=
+  [.mount ⟨abs realScript, execScript, false⟩] ++
+  (if netAccess then [] else [.flag 'n']) ++
+  (match envFile with | some f => [.mount ⟨abs f, strOf "/bob/env", true⟩] | none => []) ++
+  [.mount ⟨abs wsStorage, abs wsExec, true⟩, .opt 'W' (abs wsExec)] ++
+  depMounts.map fun d => .mount ⟨abs d.1, abs d.2, false⟩
+
+/-- options as `ParseCommandLine` of namespace-sandbox.c collects them -/
+structure HelperOpts where
+  root : Option Str := none
+  workdir : Option Str := none
+  dirs : List Str := []
+  mounts : List Mount := []
+  pending : Option Str := none         -- `-M` not yet followed by `-m`/`-w`
+  flags : List Char := []
+  host : Option Str := none
+  cmd : List Str := []
+
+/-- `AddMountSource(NULL, opt)`: a pending source is mounted at the same path, read-only -/
+def HelperOpts.flush (o : HelperOpts) : HelperOpts :=
+  match o.pending with
+  | none => o
+  | some s => { o with mounts := o.mounts ++ [⟨s, s, false⟩], pending := none }
+
+inductive HelperErr | usage | unsupported
+  deriving DecidableEq, Repr
+
+/-- the getopt loop of `ParseCommandLine` for separately given option arguments (the only form Bob emits) -/
+def parseHelper : HelperOpts → List Str → Except HelperErr HelperOpts
+  | o, [] => .ok o.flush
+  | o, [a] =>
+    if a = dash 'i' || a = dash 'n' || a = dash 'r' then .ok { o with flags := o.flags ++ a.drop 1 }.flush
+    else if a = ['-', '-'] then .ok o.flush
+    else .error .usage
+  | o, a :: v :: r =>
+    if a = ['-', '-'] then .ok { o.flush with cmd := v :: r }
+    else if a = dash 'i' || a = dash 'n' || a = dash 'r' then parseHelper { o with flags := o.flags ++ a.drop 1 } (v :: r)
+    else if a = dash 'S' then
+      (if o.root.isSome then .error .usage else parseHelper { o with root := some v } r)
+    else if a = dash 'W' then
+      (if o.workdir.isSome then .error .usage else parseHelper { o with workdir := some v } r)
+    else if a = dash 'H' then parseHelper { o with host := some v } r
+    else if a = dash 'd' then
+      (if !headIs (· = '/') v then .error .usage else parseHelper { o with dirs := o.dirs ++ [v] } r)
+    else if a = dash 'M' then
+      (if !headIs (· = '/') v then .error .usage else parseHelper { o.flush with pending := some v } r)
+    else if a = dash 'm' || a = dash 'w' then
+      (if !headIs (· = '/') v then .error .usage
+       else match o.pending with
+        | none => .error .usage
+        | some s => parseHelper { o with mounts := o.mounts ++ [⟨s, v, a = dash 'w'⟩], pending := none } r)
+    else .error .unsupported
+
+/-- path components -/
+def comps (p : Str) : List Str := (splitOn '/' [] p).filter (!·.isEmpty)
+
+/-- **mount contract of the helper** (assumed, not verified: the C program and the kernel): a path inside the
+sandbox leads to the LAST mount whose target is a component prefix of it, at the corresponding place below the
+mount's source, writable iff that mount was given with `-w`; a path covered by no mount lives in the
+private, initially empty sandbox root (`-S`, a fresh temporary directory). -/
+def resolve (mounts : List Mount) (p : Str) : Option (Mount × List Str) :=
+  (mounts.reverse.find? fun m => (comps m.tgt).isPrefixOf (comps p)).map fun m =>
+    (m, (comps p).drop (comps m.tgt).length)
 
 end ShellEnv
